@@ -18,7 +18,8 @@ RULE = ("grammar-generated ASTs of the stratified expression language (every ope
         "specification with 0-3 blanks at every lexeme boundary, plus the recon corpus; for a subset all "
         "single-character deletions and a sample of insertions/replacements over the solver alphabet, classified "
         "by the reference recogniser (well-formed -> value must equal the specification; unbalanced / wrong "
-        "arity / missing operand -> must raise; other -> only impl = model); random literal candidates for the "
+        "arity / missing operand / missing operator between two operands -> must raise; other -> no verdict); for the "
+        "same subset every deletion of one whole operator lexeme; (; random literal candidates for the "
         "float-literal recogniser; long flat chains (550-3000 operands quick, up to 5000 thorough) on one nesting "
         "level for every binary step, operands with sign runs, bare or inside a call; every stream is also solved, in the same order (well-formed strings interleaved "
         "with the malformed ones), by ONE long-lived solver instance. deeply nested calls (30-70 levels quick, 60-120 thorough). non-trivial = expression with >= 2 operators of different steps, a sign, or "
@@ -40,6 +41,11 @@ ASSUMPTIONS = [
     "nan == nan) with the float evaluation of the term -- justified because both sides apply the same IEEE "
     "operations in the same order (the regenerated AtomBase method table pins each method to its Python "
     "operator, fact_atombase_ops); the only identification is neg(neg a) = a, which is exact in IEEE-754",
+    "a string with two operands and no operator between them (`(1+2)(3+4)`, `sin(1)cos(1)`, `2 3`: a deleted binary "
+    "operator) is judged as not well-formed, to be rejected: no pass can remove the surplus operand, so the final "
+    "test or an earlier step raises on the unchanged code",
+    "integer literals of any length denote the float nearest to them (AtomBase builds float(text)); AtomBase "
+    "results are compared by value AND numeric kind (bool / int / float / complex, np.float64 = float)",
     "strings in no class of the property (recogniser class 'other': '()', adjacent operands, stray characters, "
     "exotic float spellings) get no verdict AND an impl/model difference on them is only counted "
     "(other.impl_ne_model), it cannot fail the check; the float-literal recogniser is judged on candidates over "
@@ -172,15 +178,33 @@ def judge_text(ctx, text, cls, ast_eval, model, opname, where):
             elif stock != via_impl:
                 ctx.disagreement("atombase:" + where, {"text": text},
                                  "AtomBase %s, recorded term in floats %s" % (stock, via_impl))
-    elif cls in ("unbalanced", "arity", "missing"):
+    elif cls in MUST_REJECT:
         stock = L.run_stock(text)
         if impl != "err" or stock != "err":
             ctx.violation("reject:" + cls,
                           "%s string %r is not rejected: recording atom -> %s, AtomBase -> %s" %
-                          ({"unbalanced": "unbalanced-parenthesis", "arity": "wrong-arity",
-                            "missing": "missing-operand"}[cls], text, json.dumps(impl)[:200], stock),
+                          (MUST_REJECT[cls], text, json.dumps(impl)[:200], stock),
                           {"stream": where, "text": text, "class": cls, "impl": impl, "atombase": stock})
     return impl
+
+
+MUST_REJECT = {"unbalanced": "unbalanced-parenthesis", "arity": "wrong-arity", "missing": "missing-operand",
+               "adjacent": "missing-operator (two operands with no operator between them)"}
+
+
+def lexeme_deletions(e, bl):
+    """the text with ONE operator lexeme deleted (whole symbols such as `**`, `==`, `&&`), at every position"""
+    lx = L.lexemes(e)
+    ops = set(L.B2_SYM.values()) | {"!"}
+    out = []
+    for i, x in enumerate(lx):
+        if x in ops:
+            parts = []
+            for j, y in enumerate(lx):
+                if j != i:
+                    parts.append(" " * (bl[j] if j < len(bl) else 0) + y)
+            out.append("".join(parts))
+    return out
 
 
 def edits_of(rng, text, n_sample):
@@ -251,7 +275,8 @@ def ast_stream(ctx, asts, edit_every, n_sample, where="ast"):
             ctx.disagreement("tokenize-statement-instance", {"ast": e, "text": text},
                              "tokenize (render b e) = %s, toks e = %s" % (s["tokenized"], s["toks"]))
         texts.append((e, text, s["eval"]))
-        eds = edits_of(rng, text, n_sample) if (n % edit_every == 0) else []
+        eds = (edits_of(rng, text, n_sample) + [t for t in lexeme_deletions(e, bl) if t != text]) \
+            if (n % edit_every == 0) else []
         todo.append(eds)
     # model on all texts and edits; specification value of the edits that are well-formed
     reqs, meta = [], []
@@ -321,7 +346,7 @@ def longlived_stream(ctx, items, where):
             want = {"atom": L.norm(ev)}
             got = {"atom": L.norm(impl["atom"])} if isinstance(impl, dict) and "atom" in impl else impl
             return None if got == want else (got, want)
-        if cls in ("unbalanced", "arity", "missing"):
+        if cls in MUST_REJECT:
             return None if impl == "err" else (impl, "err")
         return None
     failed_before = None
@@ -506,6 +531,17 @@ def consistency_stream(ctx, pairs):
             return
 
 
+BIGNUM = [
+    # literals / results beyond 2**53: a literal denotes the float nearest to it
+    "99999999999999999 == 100000000000000000", "9007199254740992 + 1 > 9007199254740992", "3**40", "10**400",
+    "log(10**30)", "sqrt(10**40)", "sin(123456789012345678)", "10**30 / 7", "2**64 * 2**64", "2**53 + 1 - 2**53",
+    "12345678901234567890123 - 12345678901234567890124", "99999999999999999999 * 3", "9007199254740993",
+    "12345678901234567890", "18014398509481985 / 2", "log10(100000000000000000000)", "10**22 + 1 == 10**22",
+    "123456789012345678 != 123456789012345679", "2**70 - 2**70 + 1", "exp(log(99999999999999999))",
+    "5", "7 / 2", "2**10", "0 - 3", "1000000 * 1000000",
+]
+
+
 def small_family():
     """systematic small expressions: every ordered pair of binary operators over three operands, with a sign
     on each operand position, every call form, sign runs, `!`."""
@@ -562,6 +598,15 @@ def correspond(ctx: Ctx):
     # comparison operands that are unequal but close, all six operators, both orders
     ast_stream(ctx, compare_family(), 1000, 0, "compare")
     consistency_stream(ctx, CLOSE_PAIRS + gen_close_pairs(rng, 200 if thorough else 40))
+    # integer literals and integer-valued results beyond 2**53
+    big = []
+    for t in BIGNUM:
+        c, a = L.classify(t)
+        if c != "wf":
+            ctx.disagreement("corpus", {"text": t}, "big-number entry is classified %s" % c)
+        else:
+            big.append(a)
+    ast_stream(ctx, big, 1000, 0, "bignum")
     # deep nesting: plain parentheses, one function, mixed calls, 60-120 levels
     deep = []
     for f, d in (("par", 70 if not thorough else 120), ("sin", 40 if not thorough else 80), (None, 30 if not thorough else 60)):
